@@ -617,23 +617,23 @@ def run(chk):
     n_model = n_q = n_mixed_model = boundary_flips = 0
     model_cases = []
     if lib is not None:
-        model_cases = gen_model_cases(chk.rng, lib, 35 if quick else 600)
-    oracle_cases = gen_oracle_cases(chk.rng, 25 if quick else 400)
+        model_cases = gen_model_cases(chk.rng, lib, 35 if quick else 300)
+    oracle_cases = gen_oracle_cases(chk.rng, 25 if quick else 200)
     corpus = json.load(open(os.path.join(common.VERIF, "corpus", "c23.json")))
     for c in corpus:
         if "x" in c:
             oracle_cases.insert(0, (c["pair"], c["source"], c["x"], tuple(c["tol"])))
-    mixed_cases = gen_mixed_cases(chk.rng, 100 if quick else 2000)
+    mixed_cases = gen_mixed_cases(chk.rng, 100 if quick else 800)
     # the documented wrappers of unit_list (units::mixed)
     WRAPPERS = [("DMS", ["degree", "arcminute", "arcsecond"], "degree"), ("DM", ["degree", "arcminute"], "degree"),
                 ("feet_and_inches", ["foot", "inch"], "foot"), ("pounds_and_ounces", ["pound", "ounce"], "pound")]
     wrapper_cases = []
-    for _ in range(40 if quick else 600):
+    for _ in range(40 if quick else 300):
         fn, us, vu = chk.rng.choice(WRAPPERS)
         v = chk.rng.choice([chk.rng.uniform(0, 400), float(chk.rng.randrange(0, 400)), chk.rng.randrange(1, 10 ** 5) / 3600.0,
                             -chk.rng.uniform(0, 90), chk.rng.randrange(1, 1000) / 12.0])
         wrapper_cases.append((fn, us, v, vu))
-    dt_cases = gen_datetime_oracle_cases(chk.rng, 60 if quick else 1500)
+    dt_cases = gen_datetime_oracle_cases(chk.rng, 60 if quick else 600)
     for c in corpus:
         if c.get("kind") in ("Q", "D"):
             dt_cases.insert(0, (c["pair"], c["source"], c["kind"], c["expected"], c["tol"]))
@@ -646,7 +646,7 @@ def run(chk):
     lines = [c[2] for c in model_cases] + [c[1] for c in oracle_cases] + \
             ["unit_list([%s], %s %s)" % (", ".join(us), fl(v), vu) for us, v, vu in mixed_cases] + [c[1] for c in dt_cases] + \
             ["%s(%s %s)" % (fn, fl(v), vu) for fn, us, v, vu in wrapper_cases]
-    outs = common.run_harness(binary, "eval", lines)
+    outs = common.run_harness(binary, "eval", lines, timeout=3000)
     o_wrap = outs[len(lines) - len(wrapper_cases):]
     o_dt = outs[len(model_cases) + len(oracle_cases) + len(mixed_cases):len(lines) - len(wrapper_cases)]
     o_model = outs[:len(model_cases)]
@@ -680,7 +680,7 @@ def run(chk):
                 want = lib.call(name, [a], True)
                 items.append(("show_Q (%s %s)" % (coq_name(name), coq_q(a)), "%d/%d" % (want.numerator, want.denominator)))
         n_q = len(items)
-        coq_bad = common.coq_mismatches(["Stdlib.Model", "Gen.NbtFunsQ", "Stdlib.Exec"], items, "c23", shard_size=150, prelude="From Coq Require Import QArith.")
+        coq_bad = common.coq_mismatches(["Stdlib.Model", "Gen.NbtFunsQ", "Stdlib.Exec"], items, "c23", shard_size=150, timeout=3000, prelude="From Coq Require Import QArith.")
         # hand-ported mixed-unit list against the implementation: the model runs on the exact rationals of
         # the f64 inputs; parts are compared with a tolerance, and a difference of a whole number of units
         # between neighbouring parts (truncation at a float boundary) is counted, not reported
@@ -690,7 +690,7 @@ def run(chk):
             mclean.append(clean)
             mterms.append(("show_mixed (unit_list [%s]%%list %s)" % (
                 "; ".join(coq_q(Fraction(sizes[u])) for u in us), coq_q(Fraction(v) * Fraction(sizes[vu]))), "@"))
-        mstr = common.coq_mismatches(["Stdlib.Model", "Stdlib.Exec"], mterms, "c23m", shard_size=100, prelude="From Coq Require Import QArith.")
+        mstr = common.coq_mismatches(["Stdlib.Model", "Stdlib.Exec"], mterms, "c23m", shard_size=100, timeout=3000, prelude="From Coq Require Import QArith.")
         for i, ((us, v, vu), o) in enumerate(zip(mixed_cases, o_mixed)):
             n_mixed_model += 1
             ms = mstr.get(i, "@")
